@@ -385,6 +385,28 @@ func CheckConservation(writes []WriteRec, us *broker.UpState, o Opts) *Finding {
 	return nil
 }
 
+// CheckSubset: every point of the given (nil-returning) writes reached the broker.
+func CheckSubset(writes []WriteRec, us *broker.UpState) *Finding {
+	bySeq, _ := BySeq(us.Chunks)
+	have := map[PKey]bool{}
+	for _, sc := range bySeq {
+		for _, p := range sc.Points {
+			have[p] = true
+		}
+	}
+	for _, w := range writes {
+		if w.Return == 0 || w.Err != "" {
+			continue
+		}
+		for _, p := range w.Points {
+			if !have[p] {
+				return &Finding{"a point whose write had returned nil before Close was called never reached the broker", "point-lost", map[string]any{"point": p.String()}}
+			}
+		}
+	}
+	return nil
+}
+
 func findElapsed(writes []WriteRec, e time.Duration) string {
 	for _, w := range writes {
 		for _, p := range w.Points {
